@@ -147,7 +147,7 @@ func H06() {
 	aimAttr := symBool()
 	aimSlot := symBool()
 	if aimLeafDefault {
-		aim += `deviation /mm:u1/mm:lf { deviate replace { default "9"; } } `
+		aim += `deviation /mm:u1/mm:lf { deviate replace { default "9"; } deviate add { units "uu"; } } `
 	}
 	d := `module d { yang-version 1.1; namespace "urn:d"; prefix d; import m { prefix mm; } ` + "AIM" + `}`
 	note(m + g2 + a)
@@ -344,4 +344,55 @@ func H06pfx() {
 	}
 	check(len(c.Dir) == 1 && c.Dir["from"+mx] != nil, "a prefixed grouping name in the module is read with the module's own import of that prefix")
 	check(len(sc.Dir) == 1 && sc.Dir["from"+my] != nil, "a prefixed grouping name in the submodule is read with the submodule's own import of that prefix")
+}
+
+
+// H06io: a grouping defined directly inside an rpc input, an rpc output, an action input/output
+// or a notification, used there and one level below: the uses finds it (lexical scope of the
+// definition site) and expands it, with the unprefixed and the own-prefixed spelling.
+func H06io() {
+	site := symChoice(5)
+	name := []string{"gi", "m:gi"}[symChoice(2)]
+	inner := `grouping gi { leaf il { type int8; } } uses ` + name + `; container ic { uses ` + name + `; } `
+	var body string
+	switch site {
+	case 0:
+		body = `rpc r { input { ` + inner + `} } `
+	case 1:
+		body = `rpc r { output { ` + inner + `} } `
+	case 2:
+		body = `container c { action a { input { ` + inner + `} } } `
+	case 3:
+		body = `container c { action a { output { ` + inner + `} } } `
+	case 4:
+		body = `notification n { ` + inner + `} `
+	}
+	m := `module m { yang-version 1.1; namespace "urn:m"; prefix m; grouping unrelated { leaf ul { type string; } } ` + body + `}`
+	note(m)
+	ms, lerrs := hLoad(m)
+	check(len(lerrs) == 0, "the module parses")
+	errs := ms.Process()
+	check(len(errs) == 0, "a grouping defined in an input, output or notification is found by a uses below it")
+	if len(errs) > 0 {
+		return
+	}
+	reach("processed")
+	hWF(ms)
+	em := ToEntry(ms.Modules["m"])
+	var at *Entry
+	switch site {
+	case 0:
+		at = em.Dir["r"].RPC.Input
+	case 1:
+		at = em.Dir["r"].RPC.Output
+	case 2:
+		at = em.Dir["c"].Dir["a"].RPC.Input
+	case 3:
+		at = em.Dir["c"].Dir["a"].RPC.Output
+	case 4:
+		at = em.Dir["n"]
+	}
+	check(at != nil && at.Dir["il"] != nil && at.Dir["il"].Type.Kind == Yint8, "the using node receives a copy of every node the grouping defines")
+	check(at != nil && at.Dir["ic"] != nil && at.Dir["ic"].Dir["il"] != nil && at.Dir["ic"].Dir["il"] != at.Dir["il"], "a second use one level below receives its own copy")
+	check(at != nil && len(at.Dir) == 2, "nothing else")
 }
